@@ -35,7 +35,7 @@ def q(s):
 
 class ProgGen:
     def __init__(self, rng, alpha=ALPHA, max_depth=3, allow_named=True, allow_pred=True, allow_whole=True,
-                 allow_backref=True, allow_sub=True, allow_global=True, allow_anchor=True, allow_notin=True):
+                 allow_backref=True, allow_sub=True, allow_global=True, allow_anchor=True, allow_notin=True, allow_capture=True):
         self.r = rng
         self.alpha = alpha
         self.max_depth = max_depth
@@ -47,6 +47,7 @@ class ProgGen:
         self.allow_global = allow_global
         self.allow_anchor = allow_anchor
         self.allow_notin = allow_notin
+        self.allow_capture = allow_capture
         self.features = set()
         self.globals = []        # names of set..to pattern
         self.transforms = []
@@ -248,7 +249,7 @@ class ProgGen:
             return self.loop(d)
         if r < 0.66:
             return self.alt(d)
-        if r < 0.78:
+        if r < 0.78 and self.allow_capture:
             return self.capture(d)
         if r < 0.88:
             return self.inlist()
